@@ -559,7 +559,11 @@ func FD() []*Program {
 	out = append(out, &Program{Family: "FD", Desc: "same-named imports, async", Types: []string{"R", "Q"},
 		ExtraImports: []string{`htemplate "html/template"`, `"text/template"`},
 		Decls: []Decl{{Name: "InitP", Request: "*R", Provs: []Prov{
-			func() Prov { p := fn("NewQ", []string{"*htemplate.Template"}, []string{"*Q"}, true); p.Async = true; return p }(),
+			func() Prov {
+				p := fn("NewQ", []string{"*htemplate.Template"}, []string{"*Q"}, true)
+				p.Async = true
+				return p
+			}(),
 			fn("NewR", []string{"*template.Template", "*Q"}, []string{"*R"}, false),
 		}}}})
 	// injector names colliding with variable base names (history dependence)
